@@ -408,16 +408,18 @@ CHECKS = {
                       "local node and registered remote node, the reply is written to the same session's connection and never to the other, every "
                       "message is handled once, and stopping the server closes both connections.",
         "level_note": "Trusted: SSA->SMT executor, bounded cooperative scheduler (no instruction-level races), uuid values modelled as pairwise distinct, z3. "
-                      "Bounds: 2 sessions, 1 / 2 data messages each, channel buffer {0,1}, P = 0 / 1.",
+                      "Bounds: 2 sessions, 2 / 3 data messages each (pre-emption bound 0; 1 message each also with the default pre-emption bound in quick), channel buffer {0,1}.",
         "runs": [
             {"harness": "HarnessC18StartStop", "params": {"sched": 1, "P": 0, "listeners": 2, "when": 1, "closeerr": 0}, "reach": ["c18:closed"], "threads": True},
             {"harness": "HarnessC17Context", "grid": {"buf": [0, 1]}, "params": {"sched": 1}, "reach": ["c17:all-kinds-dispatched"], "threads": True},
             {"harness": "HarnessC17Sessions", "grid": {"buf": [0, 1]}, "params": {"sched": 1, "msgs": 1}, "reach": ["c17:sessions-settled"],
              "threads": True, "tier": "quick"},
             {"harness": "HarnessC17Sessions", "grid": {"buf": [0, 1]}, "params": {"sched": 1, "P": 0, "msgs": 2}, "reach": ["c17:sessions-settled"],
+             "threads": True, "timeout": 7000},
+            {"harness": "HarnessC17Sessions", "grid": {"buf": [0, 1]}, "params": {"sched": 1, "P": 0, "msgs": 3}, "reach": ["c17:sessions-settled"],
              "threads": True, "tier": "thorough", "timeout": 7000},
         ],
-        "bounds": {"quick": {"sessions": 2, "messages": 1}, "thorough": {"sessions": 2, "messages": 2, "preemptions": 0}},
+        "bounds": {"quick": {"sessions": 2, "messages": 2, "preemptions": 0}, "thorough": {"sessions": 2, "messages": 3, "preemptions": 0}},
         "out": ["uuid collisions", "more than two sessions (symmetry argument only)", "instruction-level data races", "mixed real transports"],
         "assumptions": ["uuid.NewString returns pairwise distinct values"],
     },
